@@ -171,6 +171,8 @@ class Sim:
         elif envm == "noise_adv":
             self.noise_adv = E.NoiseAdversary(lambda: self.a, self.mu, self.W, adv, sc.get("adv_key", 0), ids=sc.get("ids"))
             a.problem = E.SimProblem(self.X, self.mu, np.zeros(len(self.X)), sc.get("adv_key", 0), adversary=self.noise_adv, ids=sc.get("ids"))
+        elif envm == "lattice":
+            a.problem = E.SimProblem(self.X, self.mu, np.zeros(len(self.X)), sc.get("adv_key", 0), adversary=E.LatticeNoise(self.mu, sc.get("adv_key", 0), ids=sc.get("ids")), ids=sc.get("ids"))
         elif envm == "real_sim":
             sd = sc.get("noise_sd") or [math.sqrt(nv)] * len(self.X)
             a.problem = E.SimProblem(self.X, self.mu, sd, sc.get("adv_key", 0), ids=sc.get("ids"))
